@@ -138,7 +138,8 @@ package res
 //@ ghostvar rcount arr
 //@ # rcount[q]: number of responses (not pre-responses) published for request object q
 //@ pred reqOK(q *Request) = q != nil && q.s != nil && q.msg != nil && !isNil(q.s.nc)
-//@ pred invR(q *Request) = rcount[ref(q)] == ite(q.replied, 1, 0)
+//@ # invR: one response iff replied; response meta (status, headers) can only be set on HTTP requests (C07)
+//@ pred invR(q *Request) = rcount[ref(q)] == ite(q.replied, 1, 0) && imp(!q.isHTTP, len(q.rheader) == 0 && q.status == 0)
 //@
 //@ func callback.benign(self ref, s *Service, msg string)
 //@   ensures true
@@ -162,15 +163,19 @@ package res
 //@   requires r != nil
 //@   modifies alloc, res.metaObject.Header, res.metaObject.Status
 //@   ensures nilm: iff(m == nil, len(r.rheader) == 0 && r.status == 0)
+//@   ensures http: imp(m != nil && invR(r), r.isHTTP)
 //@
 //@ func (r *Request) error(e *Error, m *metaObject)
 //@   requires reqOK(r)
+//@   requires metaOK: imp(m != nil, r.isHTTP)
+//@   ghost call Marshal#1 before :: assert nonnull: e != nil
 //@   modifies res.Request.replied, ghost.rcount, ghost.pubn
 //@   ensures ok: !old(r.replied) && r.replied && rcount == store(old(rcount), ref(r), old(rcount[ref(r)]) + 1)
 //@   ensures_on_panic dup: old(r.replied) && r.replied && rcount == old(rcount)
 //@
 //@ func (r *Request) success(result interface{}, m *metaObject)
 //@   requires reqOK(r)
+//@   requires metaOK: imp(m != nil, r.isHTTP)
 //@   modifies res.Request.replied, ghost.rcount, ghost.pubn, alloc
 //@   ensures ok: !old(r.replied) && r.replied && rcount == store(old(rcount), ref(r), old(rcount[ref(r)]) + 1)
 //@   ensures_on_panic dup: old(r.replied) && r.replied && rcount == old(rcount)
@@ -277,14 +282,14 @@ package res
 //@   ensures respOK(r) && !old(r.replied)
 //@   ensures_on_panic respX(r)
 //@ func (r *Request) SetResponseStatus(code int)
-//@   requires r != nil
+//@   requires r != nil && invR(r)
 //@   modifies res.Request.status
-//@   ensures r.isHTTP && !r.replied && r.status == code
+//@   ensures r.isHTTP && !r.replied && r.status == code && invR(r)
 //@   ensures_on_panic !r.isHTTP || r.replied
 //@ func (r *Request) ResponseHeader() (h http.Header)
-//@   requires r != nil
+//@   requires r != nil && invR(r)
 //@   modifies res.Request.rheader, alloc, map.card
-//@   ensures r.isHTTP && !r.replied
+//@   ensures r.isHTTP && !r.replied && invR(r)
 //@   ensures_on_panic !r.isHTTP || r.replied
 //@
 //@ # ---- request handlers are arbitrary client code holding the request (DESIGN 3.5): they may call any
@@ -310,7 +315,7 @@ package res
 //@   ensures answered: imp(!isNil(recovered), r.replied && invR(r))
 //@
 //@ func (r *Request) executeHandler()
-//@   requires reqOK(r) && !r.replied && rcount[ref(r)] == 0
+//@   requires reqOK(r) && !r.replied && rcount[ref(r)] == 0 && invR(r)
 //@   requires rt: r.rtype == "access" || r.rtype == "get" || r.rtype == "call" || r.rtype == "auth"
 //@   modifies all
 //@   callback Access handler
@@ -458,8 +463,14 @@ package res
 //@ pred evTrace(b int, a int, p int, n int, ls []func(*Event)) = trn == b + a + p + n && imp(a == 1, trk[b] == 1) && imp(p == 1, trk[b+a] == 2)
 //@     && forall(k, 0, n, trk[b+a+p+k] == 3 && tra[b+a+p+k] == ref(ls[k]))
 //@
+//@ # C07: everything published on an event subject has a well-formed subject: non-empty dot-separated
+//@ # tokens of printable non-space characters without wildcards
+//@ spec func nameOK(s string) bool
+//@   = len(s) > 0 && forall(k, 0, len(s), ridch(s[k]) && s[k] != '?') && s[0] != '.' && s[len(s)-1] != '.'
+//@     && forall(k, 0, len(s)-1, !(s[k] == '.' && s[k+1] == '.'))
 //@ func (s *Service) rawEvent(subj string, payload []byte)
 //@   requires s != nil && !isNil(s.nc)
+//@   requires subject: nameOK(subj)
 //@   modifies ghost.trn, ghost.trk, ghost.tra, ghost.pubn
 //@   callback onError benign
 //@   ghost call Conn.Publish#1 after :: set trk = store(trk, trn, 2)
@@ -468,6 +479,7 @@ package res
 //@   ensures pub: trn == old(trn) + 1 && trk == store(old(trk), old(trn), 2) && tra == store(old(tra), old(trn), 0)
 //@ func (s *Service) event(subj string, data interface{})
 //@   requires s != nil && !isNil(s.nc)
+//@   requires subject: nameOK(subj)
 //@   modifies ghost.trn, ghost.trk, ghost.tra, ghost.pubn, alloc
 //@   callback onError benign
 //@   ghost call Conn.Publish#1 after :: set trk = store(trk, trn, 2)
@@ -503,6 +515,7 @@ package res
 //@
 //@ func (r *resource) AddEvent(v interface{}, idx int)
 //@   requires resOK(r) && !lpanic
+//@   requires rname: nameOK(r.rname)
 //@   requires nonnil: forall(k, 0, len(r.listeners), r.listeners[k] != nil)
 //@   modifies all
 //@   callback ApplyAdd applyAdd
@@ -518,6 +531,7 @@ package res
 //@
 //@ func (r *resource) RemoveEvent(idx int)
 //@   requires resOK(r) && !lpanic
+//@   requires rname: nameOK(r.rname)
 //@   requires nonnil: forall(k, 0, len(r.listeners), r.listeners[k] != nil)
 //@   modifies all
 //@   callback ApplyRemove applyRemove
@@ -533,6 +547,7 @@ package res
 //@
 //@ func (r *resource) CreateEvent(data interface{})
 //@   requires resOK(r) && !lpanic
+//@   requires rname: nameOK(r.rname)
 //@   requires nonnil: forall(k, 0, len(r.listeners), r.listeners[k] != nil)
 //@   modifies all
 //@   callback ApplyCreate applyCreate
@@ -547,6 +562,7 @@ package res
 //@
 //@ func (r *resource) DeleteEvent()
 //@   requires resOK(r) && !lpanic
+//@   requires rname: nameOK(r.rname)
 //@   requires nonnil: forall(k, 0, len(r.listeners), r.listeners[k] != nil)
 //@   modifies all
 //@   callback ApplyDelete applyDelete
@@ -561,6 +577,7 @@ package res
 //@
 //@ func (r *resource) ChangeEvent(changed map[string]interface{})
 //@   requires resOK(r) && !lpanic
+//@   requires rname: nameOK(r.rname)
 //@   requires nonnil: forall(k, 0, len(r.listeners), r.listeners[k] != nil)
 //@   modifies all
 //@   callback ApplyChange applyChange
@@ -578,6 +595,7 @@ package res
 //@   = e == "change" || e == "delete" || e == "add" || e == "remove" || e == "patch" || e == "reaccess" || e == "unsubscribe" || e == "query"
 //@ func (r *resource) Event(event string, payload interface{})
 //@   requires resOK(r) && !lpanic
+//@   requires rname: nameOK(r.rname)
 //@   requires nonnil: forall(k, 0, len(r.listeners), r.listeners[k] != nil)
 //@   modifies all
 //@   callback cb listener
@@ -589,6 +607,33 @@ package res
 //@   loop 1 invariant tr: evTrace(old(trn), 0, 0, rangeindex + 1, old(r.listeners)) || evTrace(old(trn), 0, 1, rangeindex + 1, old(r.listeners))
 //@
 //@ func (r *resource) ReaccessEvent()
-//@   requires resOK(r)
+//@   requires resOK(r) && nameOK(r.rname)
 //@   modifies ghost.trn, ghost.trk, ghost.tra, ghost.pubn
 //@   ensures pub: trn == old(trn) + 1 && trk == store(old(trk), old(trn), 2)
+//@
+//@ # ================================================================ protocol conformance (C07)
+//@ props C07
+//@ func (s *Service) TokenEvent(cid string, token interface{})
+//@   requires s != nil && !isNil(s.nc)
+//@   modifies ghost.trn, ghost.trk, ghost.tra, ghost.pubn, alloc
+//@   callback onError benign
+//@   may_panic
+//@   ensures_on_panic !(len(cid) > 0 && forall(k, 0, len(cid), partch(cid[k])))
+//@ func (s *Service) TokenEventWithID(cid string, tokenID string, token interface{})
+//@   requires s != nil && !isNil(s.nc)
+//@   modifies ghost.trn, ghost.trk, ghost.tra, ghost.pubn, alloc
+//@   callback onError benign
+//@   ensures_on_panic !(len(cid) > 0 && forall(k, 0, len(cid), partch(cid[k])))
+//@ func (s *Service) TokenReset(subject string, tokenID []string)
+//@   requires s != nil && !isNil(s.nc)
+//@   modifies ghost.trn, ghost.trk, ghost.tra, ghost.pubn, alloc
+//@   callback onError benign
+//@   ensures_on_panic len(subject) == 0 || !(pvalid(subject) && forall(k, 0, len(subject), !wildAt(subject, k)))
+//@ func (r *Request) Timeout(d time.Duration)
+//@   requires reqOK(r) && nameOK(r.msg.Reply)
+//@   modifies ghost.trn, ghost.trk, ghost.tra, ghost.pubn, alloc, bytes
+//@   ghost call Service.rawEvent#1 before :: assert pre: len(arg_payload) >= 11 && bytes(arg_payload)[0:9] == "timeout:\"" && bytes(arg_payload)[len(arg_payload)-1] == '"'
+//@   ensures_on_panic d < 0
+//@ func (r *Request) TokenEvent(token interface{})
+//@   requires reqOK(r) && len(r.cid) > 0 && forall(k, 0, len(r.cid), partch(r.cid[k]))
+//@   modifies ghost.trn, ghost.trk, ghost.tra, ghost.pubn, alloc
